@@ -5,6 +5,7 @@ package handler
 import (
 	"context"
 	"encoding/json"
+	"sync"
 
 	"github.com/creachadair/jrpc2"
 )
@@ -143,4 +144,57 @@ func Harness_C16_positional_arity() {
 		vassert(err == nil && fi != nil, "C16: no positional parameters: plain Check")
 	}
 	reach("arity")
+}
+
+// Harness_C16_concurrent: two requests to the same positional handler at the
+// same time (a server does that for concurrent requests): each invocation
+// receives the values of its own request.  Runs with preemption bound 1: the
+// call into the user function through reflection is a scheduling point.
+// Natively (replay) the race window is a few instructions wide, so the round
+// is repeated many times behind a start barrier.
+func Harness_C16_concurrent() {
+	verifMapOrders(false)
+	type got struct{ a, b string }
+	var mu sync.Mutex
+	var seen []got
+	fn := func(_ context.Context, a, b string) (string, error) {
+		mu.Lock()
+		seen = append(seen, got{a, b})
+		mu.Unlock()
+		return a + b, nil
+	}
+	fi, err := Positional(fn, "first", "second")
+	vassert(err == nil, "C16: Positional accepts func(ctx, X1, X2) with two names")
+	h := fi.Wrap()
+	req := func(id, a, b string) *jrpc2.Request {
+		parsed, perr := jrpc2.ParseRequests(tokObject([]string{"jsonrpc", "id", "method", "params"},
+			[]json.RawMessage{tokString("2.0"), tokLit(id), tokString("m"), tokArray([]json.RawMessage{tokString(a), tokString(b)})}))
+		vassert(perr == nil && parsed[0].Error == nil, "the request is valid")
+		return parsed[0].ToRequest()
+	}
+	r1, r2 := req("1", "a1", "b1"), req("2", "a2", "b2")
+	rounds := 1
+	if !inEngine() {
+		rounds = 200000
+	}
+	for k := 0; k < rounds; k++ {
+		seen = seen[:0]
+		var res1, res2 any
+		var wg sync.WaitGroup
+		start := make(chan struct{})
+		wg.Add(2)
+		go func() { defer wg.Done(); <-start; res1, _ = h(context.Background(), r1) }()
+		go func() { defer wg.Done(); <-start; res2, _ = h(context.Background(), r2) }()
+		close(start)
+		wg.Wait()
+		vassert(len(seen) == 2, "C16: each request calls the function exactly once")
+		for _, g := range seen {
+			vassert((g.a == "a1" && g.b == "b1") || (g.a == "a2" && g.b == "b2"), "C16: every invocation gets the values of one request, not a mixture")
+		}
+		vassert(seen[0] != seen[1], "C16: the two invocations get the values of the two requests")
+		s1, _ := res1.(string)
+		s2, _ := res2.(string)
+		vassert(s1 == "a1b1" && s2 == "a2b2", "C16: each caller gets the result computed from its own values")
+	}
+	reach("concurrent")
 }
